@@ -224,22 +224,31 @@ theorem follow_mem {c : Cell} {s : Seg} {b : Ref} (h : c.follow s = some b) : b 
   cases c with
   | leaf v => cases s <;> simp [Cell.follow] at h
   | set rs => cases s <;> simp [Cell.follow] at h
-  | obj cls attrs => cases s <;> simp [Cell.follow] at h
+  | obj cls attrs =>
+    cases s with
+    | key k => simp [Cell.follow] at h
+    | idx i => simp [Cell.follow] at h
+    | attr k =>
+      obtain ⟨kv, hm, rfl⟩ := kvGet?_mem (by simpa [Cell.follow] using h)
+      exact List.mem_map.2 ⟨kv, hm, rfl⟩
   | list rs =>
     cases s with
     | key k => simp [Cell.follow] at h
+    | attr k => simp [Cell.follow] at h
     | idx i =>
       have h' : rs[i]? = some b := by simpa [Cell.follow] using h
       exact List.mem_of_getElem? h'
   | tuple rs =>
     cases s with
     | key k => simp [Cell.follow] at h
+    | attr k => simp [Cell.follow] at h
     | idx i =>
       have h' : rs[i]? = some b := by simpa [Cell.follow] using h
       exact List.mem_of_getElem? h'
   | dict kvs =>
     cases s with
     | idx i => simp [Cell.follow] at h
+    | attr k => simp [Cell.follow] at h
     | key k =>
       obtain ⟨kv, hm, rfl⟩ := kvGet?_mem (by simpa [Cell.follow] using h)
       exact List.mem_map.2 ⟨kv, hm, rfl⟩
